@@ -68,6 +68,16 @@ CHECKS = {
         "technique": SIM + "fault injection of garbage/corruption into a live instance, loop-exception and bounded-liveness oracles",
         "design_ref": "DESIGN.md §5 C15",
     },
+    "C16": {
+        "text": "Metamorphic deterministic simulation: every case runs twice from identical seeds and decisions, once as "
+                "is and once with a seed-chosen subset (often all) of the deliveries to the real instances duplicated "
+                "back to back on the same socket; transmission traces (time, destination, bytes) and callback logs must "
+                "be equal, the stated unicast exemption aside. Runs are compared exactly up to the first duplicated "
+                "QU-question query (known finding D7 from there on); half of the scenarios contain no QU question and "
+                "are compared in full.",
+        "technique": SIM + "metamorphic comparison of two replays (with / without back-to-back duplication)",
+        "design_ref": "DESIGN.md §5 C16",
+    },
     "C05": {
         "text": "Seeded search over response-datagram histories (repeats, refreshes, goodbyes, cache-flush, re-cased names) "
                 "and clock steps around the 1 s flush window, TTL expiry and the 10 s purge, driven through the real "
